@@ -102,11 +102,16 @@ impl Check for C09 {
         for how in ["disconnect", "shutdown"] {
             u.insert(0, json!({"kind":"free-running","how":how}));
         }
+        // subscriptions taken on another thread while the peer set changes (loom, harness/lockx)
+        u.push(json!({"kind":"threads","tier":tier.as_str(),"subset":"subscribe"}));
         u
     }
     fn run_unit(&self, tier: Tier, unit: &Value, out: &mut UnitResult) {
         if unit["kind"] == "free-running" {
             return free_running(unit, out);
+        }
+        if unit["kind"] == "threads" {
+            return super::c04::run_threads(unit, out);
         }
         histories::run_unit(tier, unit, out, "C09")
     }
